@@ -49,6 +49,63 @@ def gen(chk, tier):
                 inplace = rng.random() < 0.5
                 add(k, "sm4.crypt", h="c", dec=False, src=b, inplace=inplace)
                 add(k, "sm4.crypt", h="c", dec=True, src=b, inplace=not inplace)
+    # consecutive constructions with DIFFERENT keys that collide under cheap fingerprints (CRC-32,
+    # byte sum, XOR fold, equal halves): a construction cache keyed on such a fingerprint would hand
+    # out the wrong schedule.  Both ciphers are used after both have been built.
+    import zlib
+
+    def crc_collision(k1):
+        # crc32 is affine: crc(m ^ d) = crc(m) ^ L(d); find d # 0 confined to bytes 11..15 with L(d) = 0
+        base = zlib.crc32(bytes(16))
+        cols = []
+        for bit in range(40):
+            dd = bytearray(16)
+            dd[11 + bit // 8] = 1 << (bit % 8)
+            cols.append(zlib.crc32(bytes(dd)) ^ base)
+        # Gaussian elimination for a kernel vector over GF(2)
+        rows = [(cols[i], 1 << i) for i in range(40)]
+        piv = {}
+        for val, comb in rows:
+            for b in range(31, -1, -1):
+                if not (val >> b) & 1:
+                    continue
+                if b in piv:
+                    val ^= piv[b][0]
+                    comb ^= piv[b][1]
+                else:
+                    piv[b] = (val, comb)
+                    break
+            if val == 0 and comb:
+                k2 = bytearray(k1)
+                for bit in range(40):
+                    if (comb >> bit) & 1:
+                        k2[11 + bit // 8] ^= 1 << (bit % 8)
+                return list(k2)
+        return None
+
+    for _ in range(3 if tier == "quick" else 30):
+        k1 = rb(rng, 16)
+        pairs = []
+        c = crc_collision(k1)
+        if c and zlib.crc32(bytes(c)) == zlib.crc32(bytes(k1)) and c != k1:
+            pairs.append(("crc32", c))
+        k2 = list(k1); k2[3] = (k2[3] + 1) % 256; k2[9] = (k2[9] - 1) % 256
+        pairs.append(("bytesum", k2))
+        k3 = list(k1); k3[0] ^= 0x5a; k3[4] ^= 0x5a
+        pairs.append(("xorfold32", k3))
+        k4 = list(k1); k4[15] ^= 1
+        pairs.append(("same_first_15", k4))
+        k5 = list(k1); k5[0] ^= 0x80
+        pairs.append(("same_last_15", k5))
+        for name, kk in pairs:
+            for asm in (True, False):
+                k = scenario("keypair_colliding_" + name)
+                add(k, "sm4.newcipher", h="c1", key=k1, asm=asm)
+                add(k, "sm4.newcipher", h="c2", key=kk, asm=asm)
+                blk = rb(rng, 16)
+                add(k, "sm4.crypt", h="c2", dec=False, src=blk, inplace=False)
+                add(k, "sm4.crypt", h="c1", dec=False, src=blk, inplace=False)
+                add(k, "sm4.crypt", h="c2", dec=True, src=blk, inplace=False)
     # key length rule
     for L in list(range(0, 41)):
         k = scenario("keylen_%s" % ("16" if L == 16 else "bad"))
